@@ -20,6 +20,7 @@ import (
 	"strconv"
 	"strings"
 
+	"github.com/onflow/cadence/ast"
 	"github.com/onflow/cadence/bbq"
 	"github.com/onflow/cadence/bbq/compiler"
 	"github.com/onflow/cadence/bbq/leb128"
@@ -249,9 +250,18 @@ func lebMain(args []string) {
 
 // ------------------------------------------------------------------ compiling
 
-type corpusProgram struct {
-	ID   string `json:"id"`
+type bundleProgram struct {
+	Name string `json:"name"`
+	Addr int    `json:"addr"`
 	Code string `json:"code"`
+}
+
+// a corpus entry is one self-contained program (Code) or a bundle of programs that import each other
+// (Programs, in dependency order; each is a contract / contract interface deployed at an address)
+type corpusProgram struct {
+	ID       string          `json:"id"`
+	Code     string          `json:"code"`
+	Programs []bundleProgram `json:"programs"`
 }
 
 func readCorpus(path string) []corpusProgram {
@@ -308,6 +318,111 @@ func compileOne(p corpusProgram) (c compiled, err error) {
 	return c, nil
 }
 
+// ------------------------------------------------------------------ bundles of programs with imports
+
+type checkedProgram struct {
+	name     string // "<contract>@<address byte>": unique within the bundle
+	location common.Location
+	checker  *sema.Checker
+	program  *bbq.InstructionProgram
+	elab     *compiler.DesugaredElaboration
+}
+
+type bundle struct {
+	programs []*checkedProgram
+	byLoc    map[common.Location]*checkedProgram
+}
+
+func resolveSingleIdentifiers(identifiers []ast.Identifier, location common.Location) ([]sema.ResolvedLocation, error) {
+	addr, ok := location.(common.AddressLocation)
+	if !ok {
+		return []sema.ResolvedLocation{{Location: location, Identifiers: identifiers}}, nil
+	}
+	// one resolved location per imported identifier (as the runtime's default resolver for address locations does)
+	res := make([]sema.ResolvedLocation, 0, len(identifiers))
+	for _, id := range identifiers {
+		res = append(res, sema.ResolvedLocation{
+			Location:    common.AddressLocation{Address: addr.Address, Name: id.Identifier},
+			Identifiers: []ast.Identifier{id},
+		})
+	}
+	return res, nil
+}
+
+// checkBundle parses and checks every program of the bundle (in order) and compiles it once
+func checkBundle(p corpusProgram) (b *bundle, err error) {
+	defer func() {
+		if r := recover(); r != nil {
+			err = fmt.Errorf("panic: %v", r)
+		}
+	}()
+	b = &bundle{byLoc: map[common.Location]*checkedProgram{}}
+	for _, bp := range p.Programs {
+		location := common.AddressLocation{Address: common.MustBytesToAddress([]byte{byte(bp.Addr)}), Name: bp.Name}
+		prog, perr := parser.ParseProgram(nil, []byte(bp.Code), parser.Config{})
+		if perr != nil {
+			return nil, fmt.Errorf("%s: parse: %w", bp.Name, perr)
+		}
+		checker, cerr := sema.NewChecker(prog, location, nil, &sema.Config{
+			AccessCheckMode:            sema.AccessCheckModeStrict,
+			BaseValueActivationHandler: baseActivation,
+			LocationHandler:            resolveSingleIdentifiers,
+			ImportHandler: func(_ *sema.Checker, loc common.Location, _ ast.Range) (sema.Import, error) {
+				imported, ok := b.byLoc[loc]
+				if !ok {
+					return nil, fmt.Errorf("cannot find program %s", loc)
+				}
+				return sema.ElaborationImport{Elaboration: imported.elab.OriginalElaboration()}, nil
+			},
+		})
+		if cerr != nil {
+			return nil, fmt.Errorf("%s: checker: %w", bp.Name, cerr)
+		}
+		if err := checker.Check(); err != nil {
+			return nil, fmt.Errorf("%s: check: %w", bp.Name, err)
+		}
+		cp := &checkedProgram{name: fmt.Sprintf("%s@%d", bp.Name, bp.Addr), location: location, checker: checker,
+			elab: compiler.NewDesugaredElaboration(checker.Elaboration)}
+		b.byLoc[location] = cp
+		b.programs = append(b.programs, cp)
+		program, elab := b.compile(cp)
+		cp.program, cp.elab = program, elab
+	}
+	return b, nil
+}
+
+// compile runs a fresh compiler on an already checked program of the bundle
+func (b *bundle) compile(cp *checkedProgram) (*bbq.InstructionProgram, *compiler.DesugaredElaboration) {
+	config := &compiler.Config{
+		LocationHandler: resolveSingleIdentifiers,
+		ImportHandler: func(loc common.Location) *bbq.InstructionProgram {
+			if imported, ok := b.byLoc[loc]; ok {
+				return imported.program
+			}
+			return nil
+		},
+		ElaborationResolver: func(loc common.Location) (*compiler.DesugaredElaboration, error) {
+			imported, ok := b.byLoc[loc]
+			if !ok {
+				return nil, fmt.Errorf("cannot find elaboration for %s", loc)
+			}
+			return imported.elab, nil
+		},
+	}
+	comp := compiler.NewInstructionCompilerWithConfig(interpreter.ProgramFromChecker(cp.checker), cp.location, config)
+	return comp.Compile(), comp.DesugaredElaboration
+}
+
+func (b *bundle) recompile(cp *checkedProgram) (prog *bbq.InstructionProgram, err error) {
+	defer func() {
+		if r := recover(); r != nil {
+			err = fmt.Errorf("panic: %v", r)
+		}
+	}()
+	prog, _ = b.compile(cp)
+	return prog, nil
+}
+
 // digestProgram: everything the property lists (bytecode, constants, function order, type tables)
 // plus globals, imports, variables, contracts, in program order.
 func digestProgram(p *bbq.InstructionProgram) (string, map[string]string) {
@@ -358,7 +473,7 @@ func digestProgram(p *bbq.InstructionProgram) (string, map[string]string) {
 	return fmt.Sprintf("%x", h.Sum(nil)), parts
 }
 
-// text compile <out> <corpus> <rounds>: one line per program: digests of every round
+// text compile <out> <corpus> <rounds> [bundle rounds]: one line per program: digests of every round
 func compileMain(args []string) {
 	if len(args) < 2 {
 		util.Die("usage: text compile <out.ndjson> <corpus.ndjson> [rounds]")
@@ -371,7 +486,51 @@ func compileMain(args []string) {
 	defer out.Close()
 	ps := readCorpus(args[1])
 	nfun, nins := 0, 0
+	bundleRounds := rounds
+	if len(args) >= 4 {
+		bundleRounds, _ = strconv.Atoi(args[3])
+	}
+	nprog := 0
 	for _, p := range ps {
+		if len(p.Programs) > 0 {
+			// a bundle: checked once, every program then compiled bundleRounds times by fresh compilers
+			// (Go randomises map iteration per iteration, so repeated compilation in one process explores orders)
+			b, err := checkBundle(p)
+			if err != nil {
+				out.Write(map[string]any{"harness": true, "id": p.ID, "msg": err.Error()})
+				continue
+			}
+			for _, cp := range b.programs {
+				nprog++
+				var digests []string
+				var parts []map[string]string
+				for r := 0; r < bundleRounds; r++ {
+					prog := cp.program
+					if r > 0 {
+						prog, err = b.recompile(cp)
+						if err != nil {
+							out.Write(map[string]any{"harness": true, "id": p.ID + "/" + cp.name, "msg": err.Error()})
+							digests = nil
+							break
+						}
+					}
+					d, pp := digestProgram(prog)
+					digests = append(digests, d)
+					parts = append(parts, pp)
+					if r == 0 {
+						nfun += len(prog.Functions)
+						for _, f := range prog.Functions {
+							nins += len(f.Code)
+						}
+					}
+				}
+				if digests != nil {
+					out.Write(map[string]any{"id": p.ID + "/" + cp.name, "digests": digests, "parts": parts, "pid": os.Getpid()})
+				}
+			}
+			continue
+		}
+		nprog++
 		var digests []string
 		var parts []map[string]string
 		for r := 0; r < rounds; r++ {
@@ -395,7 +554,7 @@ func compileMain(args []string) {
 			out.Write(map[string]any{"id": p.ID, "digests": digests, "parts": parts, "pid": os.Getpid()})
 		}
 	}
-	out.Write(map[string]any{"summary": true, "programs": len(ps), "rounds": rounds, "functions": nfun, "instructions": nins})
+	out.Write(map[string]any{"summary": true, "programs": nprog, "rounds": rounds, "bundle_rounds": bundleRounds, "functions": nfun, "instructions": nins})
 }
 
 // ------------------------------------------------------------------ instruction codec
@@ -525,13 +684,32 @@ func instrMain(args []string) {
 	corpusIns, corpusFuncs, genIns := 0, 0, 0
 	opcodesSeen := map[string]bool{}
 	distinct := map[string]bool{}
+	var progs []*bbq.InstructionProgram
+	var progIDs []string
 	for _, p := range ps {
+		if len(p.Programs) > 0 {
+			b, err := checkBundle(p)
+			if err != nil {
+				out.Write(map[string]any{"harness": true, "id": p.ID, "msg": err.Error()})
+				continue
+			}
+			for _, cp := range b.programs {
+				progs = append(progs, cp.program)
+				progIDs = append(progIDs, p.ID+"/"+cp.name)
+			}
+			continue
+		}
 		c, err := compileOne(p)
 		if err != nil {
 			out.Write(map[string]any{"harness": true, "id": p.ID, "msg": err.Error(), "code": p.Code})
 			continue
 		}
-		for _, f := range c.ins.Functions {
+		progs = append(progs, c.ins)
+		progIDs = append(progIDs, p.ID)
+	}
+	for pi, prog := range progs {
+		p := corpusProgram{ID: progIDs[pi]}
+		for _, f := range prog.Functions {
 			corpusFuncs++
 			var code []byte
 			for _, ins := range f.Code {
